@@ -155,8 +155,10 @@ def memo_stores(fn: ast.FunctionDef):
     if not stores:
         return
     # handed back: a return (or an assignment that is returned) reading the same container
-    returned_names = {norm(r.value) for r in walk_no_nested(fn, include_root=False)
-                      if isinstance(r, ast.Return) and isinstance(r.value, ast.Name)}
+    # (a name that is returned, or that is an argument of the returned expression: `return Element(func=coercer)`)
+    returned_names = {x.id for r in walk_no_nested(fn, include_root=False)
+                      if isinstance(r, ast.Return) and r.value is not None
+                      for x in ast.walk(r.value) if isinstance(x, ast.Name)}
     for st, tgt, val in stores:
         c = norm(tgt.value)
         hands_back = False
